@@ -444,6 +444,19 @@ def vgbs_config(res, case, groups=None):
         want = float(np.sum(rc if thr else rp))
         if nm is not None and not close(nm, want, 1e-7, 1e-9):
             V(f"C20|n_mean|reference-state|{mode}", f"n_mean(theta)={nm:.10g}, reference state has {want:.10g} (theta={theta.tolist()})", ex)
+        # the same dimensionless moments at hbar = 1 and 0.5 (module global, restored)
+        old_hbar = sf.hbar
+        for hb in (1.0, 0.5):
+            try:
+                sf.hbar = hb
+                mc_h = guarded("mean_clicks_by_mode", lambda: np.array(vg.mean_clicks_by_mode(theta), dtype=float), "moments")
+                nm_h = guarded("n_mean", lambda: float(vg.n_mean(theta)), "moments")
+            finally:
+                sf.hbar = old_hbar
+            if mc_h is not None and not close(mc_h, rc, 1e-7, 1e-9):
+                V("C20|mean_clicks_by_mode|hbar-invariance", f"mean_clicks_by_mode at hbar={hb} = {mc_h.tolist()}, reference state has {rc.tolist()} (theta={theta.tolist()})", ex)
+            if nm_h is not None and not close(nm_h, want, 1e-7, 1e-9):
+                V(f"C20|n_mean|hbar-invariance|{mode}", f"n_mean(theta) at hbar={hb} = {nm_h:.10g}, reference state has {want:.10g} (theta={theta.tolist()})", ex)
 
     # ---------------------------------------------------------------- dist: probabilities
     if run("dist"):
